@@ -23,7 +23,9 @@ RULE = (
     "seeded graphs whose nested AutoSerialize objects hang off attributes to depth 3, attribute names and dict keys drawn from a pool "
     "of 8 (the same name recurs at several depths and as dict key); S = subset of pool + absent names (thorough: all 2^8 subsets of the "
     "pool per graph family, quick: seeded subsets incl. empty and full); T = seeded list of types from {ndarray, Tensor, Parameter, int, float, "
-    "str, bool, list, tuple, dict, set, Path, np.float64, Leaf (an AutoSerialize class with a subclass), NoneType}; both stores alternate. "
+    "str, bool, list, tuple, dict, set, Path, np.float64, Leaf (an AutoSerialize class with a subclass), NoneType, np.generic, np.complexfloating, np.datetime64, "
+    "np.number}; every object also carries a complex / datetime64 / timedelta64 / bytes_ NumPy scalar (stored as a flagged 0-d array) and array-ish type lists "
+    "([ndarray], [ndarray, Tensor], [generic], ...) run on every family; both stores alternate. "
     "non-trivial = S or T removes >=1 attribute at object depth >=2 and >=1 attribute survives; distinct = (graph signature, S, T)"
 )
 ASSUMPTIONS = [
@@ -41,7 +43,10 @@ EXHAUSTIVE = {"quick": False, "thorough": False}
 POOL = ["a", "b", "c", "d", "e", "f", "g", "h"]
 ABSENT = ["zz", "not_there", "a2"]
 LONG_NAMES = ["payload", "meta"]  # every object of the graph also carries these two attributes
-TYPE_NAMES = ["ndarray", "Tensor", "Parameter", "int", "float", "str", "bool", "list", "tuple", "dict", "set", "Path", "float64", "Leaf", "NoneType"]
+TYPE_NAMES = ["ndarray", "Tensor", "Parameter", "int", "float", "str", "bool", "list", "tuple", "dict", "set", "Path", "float64", "Leaf", "NoneType",
+              "generic", "complexfloating", "datetime64", "number"]
+# type lists that meet the NumPy scalars stored as flagged 0-d arrays (complex / datetime64 / timedelta64 / bytes_): run on every family
+ARRAYISH_TYPE_LISTS = [["ndarray"], ["ndarray", "Tensor"], ["generic"], ["complexfloating", "ndarray"], ["datetime64"], ["Tensor", "number"]]
 N_FAMILIES = {"quick": 12, "thorough": 10}
 
 
@@ -75,6 +80,10 @@ def plan(tier, seed):
     for fam in range(nfam):
         specs.append({"family": fam, "S": [LONG_NAMES[fam % len(LONG_NAMES)]], "T": [], "S2": None, "store": "zip" if fam % 2 else "dir", "scalar_skip": True})
         specs.append({"family": fam, "S": [], "T": [TYPE_NAMES[fam % len(TYPE_NAMES)]], "S2": None, "store": "dir" if fam % 2 else "zip", "scalar_skip": True})
+    for fam in range(nfam):
+        for jj in range(2 if tier == "quick" else len(ARRAYISH_TYPE_LISTS)):
+            T = ARRAYISH_TYPE_LISTS[(fam + jj * 3 + seed) % len(ARRAYISH_TYPE_LISTS)]
+            specs.append({"family": fam, "S": [POOL[(fam + jj) % 8]] if jj else [], "T": T, "S2": None, "store": "zip" if (fam + jj) % 2 else "dir"})
     nrand = 260 if tier == "quick" else 900
     for r in range(nrand):
         fam = r % nfam
@@ -111,6 +120,7 @@ def setup(ctx):
     class_map = {
         "ndarray": np.ndarray, "Tensor": torch.Tensor, "Parameter": torch.nn.Parameter, "int": int, "float": float, "str": str, "bool": bool,
         "list": list, "tuple": tuple, "dict": dict, "set": set, "Path": Path, "float64": np.float64, "Leaf": sergraph.Leaf, "NoneType": type(None),
+        "generic": np.generic, "complexfloating": np.complexfloating, "datetime64": np.datetime64, "number": np.number,
     }
     ctx.state.update(load=load, sg=sergraph, deq=deq, types=class_map, pt=None)
     os.makedirs(os.path.join(ctx.tmp, "c14"), exist_ok=True)
@@ -120,11 +130,31 @@ def setup(ctx):
 # graphs
 
 
+def _np_scalar_without_json_form(rng, which):
+    """NumPy scalars the serializer stores as flagged 0-d arrays: they are not ndarrays and not JSON numbers."""
+    import numpy as np
+
+    which %= 6
+    if which == 0:
+        return np.complex64(complex(float(rng.integers(1, 9)), -0.5))
+    if which == 1:
+        return np.complex128(complex(0.25, float(rng.integers(1, 9))))
+    if which == 2:
+        return np.datetime64("2021-03-%02d" % int(rng.integers(1, 28)))
+    if which == 3:
+        return np.timedelta64(int(rng.integers(1, 999)), "s")
+    if which == 4:
+        return np.bytes_(b"by" + bytes([65 + int(rng.integers(20))]))
+    return np.datetime64("2020-01-01T00:00:00.000000001") + np.timedelta64(int(rng.integers(1, 999)), "ns")
+
+
 def _value(rng, sg, names):
     import numpy as np
     from pathlib import Path
 
-    c = int(rng.integers(20))
+    c = int(rng.integers(24))
+    if c >= 20:
+        return _np_scalar_without_json_form(rng, c - 20 + int(rng.integers(2)) * 4)
     if c == 0:
         return int(rng.integers(-99, 99))
     if c == 1:
@@ -175,6 +205,7 @@ def _obj(rng, sg, depth, maxdepth, cls, hybrid=False):
     in_module = isinstance(o, torch.nn.Module)
     o.payload = sg.make_array(rng, "float32", "1d")
     o.meta = {"depth": depth, "payload": "a dict key, not an attribute"}
+    o.stamp = _np_scalar_without_json_form(rng, int(rng.integers(6)))  # at every nesting level
     n = int(rng.integers(3, 8))
     names = [POOL[int(i)] for i in rng.permutation(8)[:n]]
     child_slots = 0
